@@ -60,6 +60,30 @@ fn check_key_token(s: &str, style: &'static str, tok: &str) -> Result<(), String
     if k.get() != s {
         return Err(format!("key style {}: token {:?} decodes to {:?}", style, tok, k.get()));
     }
+    // however a key is spelled, it IS its string: equality, ordering and hashing follow the decoded text
+    // (Key implements Borrow<str>, so a map keyed by Key is looked up by &str: the hashes must agree)
+    {
+        use std::hash::{Hash, Hasher};
+        let plain = Key::new(s);
+        let h = |x: &dyn Fn(&mut std::collections::hash_map::DefaultHasher)| {
+            let mut st = std::collections::hash_map::DefaultHasher::new();
+            x(&mut st);
+            st.finish()
+        };
+        let hk = h(&|st| k.hash(st));
+        let hp = h(&|st| plain.hash(st));
+        let hs = h(&|st| s.hash(st));
+        if k != plain || k != *s || !(k == s.to_string()) || k.partial_cmp(&plain) != Some(std::cmp::Ordering::Equal) || k.cmp(&plain) != std::cmp::Ordering::Equal {
+            return Err(format!("key style {}: the key parsed from {:?} does not compare equal to Key::new({:?}) / to the string", style, tok, s));
+        }
+        if hk != hp || hk != hs {
+            return Err(format!("key style {}: the key parsed from {:?} hashes differently from Key::new / from the string it decodes to (Borrow<str> contract)", style, tok));
+        }
+        let other = Key::new(format!("{}~", s));
+        if k.cmp(&other) != s.cmp(other.get()) || std::borrow::Borrow::<str>::borrow(&k) != s || &*k != s {
+            return Err(format!("key style {}: ordering / Borrow / Deref of the key parsed from {:?} do not follow its string", style, tok));
+        }
+    }
     let docs: [(String, Vec<&str>); 4] = [(format!("{} = 'v'\n", tok), vec![s]), (format!("[{}]\nx = 'v'\n", tok), vec![s, "x"]), (format!("a.{}.b = 'v'", tok), vec!["a", s, "b"]), (format!("k = {{ {} = 'v' }}\n", tok), vec!["k", s])];
     for (doc, path) in docs {
         let d: DocumentMut = doc.parse().map_err(|e: toml_edit::TomlError| format!("key style {}: document {:?} rejected: {}", style, doc, e.message()))?;
